@@ -15,5 +15,7 @@ CONSTANTS
   StopAfterOps = 6
   StopPcs = {"notstarted", "top", "shortcut", "select", "get", "handling", "handled", "apply", "exit", "stopped"}
   ElapsedAlways = TRUE
+  WithCancel = TRUE
+  CancelPcs = {"notstarted", "top", "shortcut", "select", "get", "handling", "handled", "apply", "exit", "stopped"}
 
 CHECK_DEADLOCK FALSE
